@@ -100,7 +100,7 @@ Proof.
            { unfold CB, c2. cbn [c_src]. apply (Bound_split (c_src c1) s' O); assumption. }
            assert (HO : O <> []) by (subst O; discriminate).
            rewrite EO. rewrite <- EO. cbn [c_remaining].
-           destruct ((c_remaining c1 - lenN O =? 0) || (k - lenN O =? 0)) eqn:Estop.
+           destruct ((c_remaining c2 =? 0) || (k - lenN O =? 0)) eqn:Estop.
            ++ right. exists O, c2. split; [reflexivity|]. split; [exact Hd2|]. split; [exact Hb2|].
               intros HO'. contradiction.
            ++ apply orb_false_iff in Estop. destruct Estop as [_ Ek2]. apply N.eqb_neq in Ek2.
